@@ -336,10 +336,10 @@ impl<W, R, T> CompilationScope<'_, W, R, T> {
                 let mut inners = input.clone().into_inner();
                 let part1 = inners.next().unwrap();
                 match part1.as_rule() {
-                    Rule::signature => {
-                        let mut sig_inners = part1.into_inner();
-                        let param_spec_opt = sig_inners.next().unwrap();
-                        let param_types = param_spec_opt
+                    Rule::paren_type => {
+                        let mut paren_inners = part1.into_inner();
+                        let param_spec_opt = paren_inners.next().unwrap();
+                        let listed_types = param_spec_opt
                             .into_inner()
                             .next()
                             .map(|p| {
@@ -357,36 +357,22 @@ impl<W, R, T> CompilationScope<'_, W, R, T> {
                             })
                             .transpose()?
                             .unwrap_or_default();
-                        let return_type = self.get_complete_type(
-                            sig_inners.next().unwrap(),
-                            generic_param_names,
-                            interner,
-                            tail_name,
-                            false,
-                        )?;
-                        Ok(Arc::new(XType::XCallable(XCallableSpec {
-                            param_types,
-                            return_type,
-                        })))
-                    }
-                    Rule::tup_type => {
-                        let mut tup_inners = part1.into_inner();
-                        match tup_inners.next() {
-                            None => Ok(Arc::new(XType::Tuple(vec![]))),
-                            Some(inner) => {
-                                let tup_types = inner
-                                    .into_inner()
-                                    .map(|i| {
-                                        self.get_complete_type(
-                                            i,
-                                            generic_param_names,
-                                            interner,
-                                            tail_name,
-                                            false,
-                                        )
-                                    })
-                                    .collect::<Result<Vec<_>, _>>()?;
-                                Ok(Arc::new(XType::Tuple(tup_types)))
+                        match paren_inners.next() {
+                            // "(" types ")": a tuple type
+                            None => Ok(Arc::new(XType::Tuple(listed_types))),
+                            // "(" types ")" "->" "(" type ")": a function signature
+                            Some(signature_return) => {
+                                let return_type = self.get_complete_type(
+                                    signature_return.into_inner().next().unwrap(),
+                                    generic_param_names,
+                                    interner,
+                                    tail_name,
+                                    false,
+                                )?;
+                                Ok(Arc::new(XType::XCallable(XCallableSpec {
+                                    param_types: listed_types,
+                                    return_type,
+                                })))
                             }
                         }
                     }
@@ -747,15 +733,22 @@ impl<W, R, T> CompilationScope<'_, W, R, T> {
                 Ok(XStaticExpr::Array(parts))
             }
             Rule::tuple => {
-                let mut iter = input.into_inner();
-                let parts = iter.next().map_or_else(
-                    || Ok(vec![]),
-                    |c| {
-                        c.into_inner()
+                let mut parts = vec![];
+                let mut trailing_comma = false;
+                for c in input.into_inner() {
+                    if c.as_rule() == Rule::tuple_trailing_comma {
+                        trailing_comma = true;
+                    } else {
+                        parts = c
+                            .into_inner()
                             .map(|p| self.parse_expr(p, interner))
-                            .collect()
-                    },
-                )?;
+                            .collect::<Result<Vec<_>, _>>()?;
+                    }
+                }
+                // "(" e ")" is a parenthesised expression, "(" e "," ")" a one-element tuple
+                if parts.len() == 1 && !trailing_comma {
+                    return Ok(parts.pop().unwrap());
+                }
                 Ok(XStaticExpr::Tuple(parts))
             }
             Rule::turbofish_cname => {
